@@ -4,7 +4,7 @@
     memo tables of the weighted counter up to validity).  Proof file. *)
 From Coq Require Import ZArith List Bool Arith Lia.
 From SP Require Import Design.Flat Design.Layout Comb.CombModel Random.Enum Random.Frag Random.RunLemmas Random.FragPerm.
-From SP Require Comb.CombSpec Comb.PermProofs Comb.StackProofs Comb.SessionProofs.
+From SP Require Comb.CombSpec Comb.PermProofs Comb.StackProofs Comb.SessionProofs Comb.TotalProofs.
 Import ListNotations.
 Open Scope nat_scope.
 Set Default Proof Using "All".
@@ -667,6 +667,61 @@ Proof.
     exists memo2. split; [|exact H2]. rewrite H1. rewrite Z2Nat.id by lia. reflexivity.
 Qed.
 
+(** with weights: the memoised counter returns (C13 totality) *)
+Lemma scp_loop_total first_n : f0_unw = false -> forall cntn i memo s,
+  StackProofs.memo_valid (Z.of_nat f0_q) (Counters f0_cws) memo ->
+  (0 <= i)%Z -> (i + Z.of_nat cntn <= cnt f0_cws (Z.of_nat first_n))%Z ->
+  exists memo', scp_loop f0_base cntn i (Z.of_nat first_n) (map (fun _ => 1%Z) f0_instances) memo s = ROk ((s + Z.of_nat cntn)%Z, memo') /\
+                StackProofs.memo_valid (Z.of_nat f0_q) (Counters f0_cws) memo'.
+Proof.
+  intros Hu. induction cntn as [|k IH]; intros i memo s Hval Hi Hb.
+  - exists memo. cbn [scp_loop]. split; [f_equal; f_equal; lia | exact Hval].
+  - cbn [scp_loop]. unfold q_instances. cbn [eb_instances eb_moc f0_base].
+    rewrite f0_instances_length. unfold f0_moc. rewrite Hu.
+    assert (Hrange : (0 <= i < cnt (StackProofs.cs_of (Z.of_nat f0_q) (Counters f0_cws)) (Z.of_nat first_n))%Z)
+      by (cbn [StackProofs.cs_of]; lia).
+    destruct (TotalProofs.unrank_dispatch_total (Z.of_nat f0_q) (Counters f0_cws) (Z.of_nat first_n) memo i
+                f0_params_ok ltac:(lia) Hval Hrange) as (wd & memo' & Hc & Hbw & _ & Hval').
+    rewrite Hc. cbn [lift rbind kperm fst snd].
+    assert (Hss : rmap (zindex (map (fun _ : asg => 1%Z) f0_instances)) wd = ROk (map (fun _ => 1%Z) wd)).
+    { apply rmap_ok_map. intros p Hp. destruct Hbw as (_ & Hs & _). cbn [StackProofs.cs_of] in Hs.
+      unfold CombSpec.symbols_below in Hs. rewrite Forall_forall in Hs. specialize (Hs p Hp). rewrite f0_cws_length in Hs.
+      apply zindex_some; [lia|].
+      apply (map_nth_error (fun _ : asg => 1%Z) (Z.to_nat p) f0_instances (d := nth (Z.to_nat p) f0_instances [])).
+      apply nth_error_nth'. rewrite f0_instances_length. lia. }
+    rewrite Hss. cbn [rbind]. rewrite prodZl_ones by (intros x Hx; apply in_map_iff in Hx; destruct Hx as [? [? _]]; congruence).
+    destruct (IH (i + 1)%Z memo' (s + 1)%Z Hval' ltac:(lia) ltac:(lia)) as (memo'' & Hrun & Hv'').
+    exists memo''. rewrite Hrun. split; [f_equal; f_equal; lia | exact Hv''].
+Qed.
+
+Lemma f0_count_solutions_total (first_n : nat) memo : f0_unw = false ->
+  StackProofs.memo_valid (Z.of_nat f0_q) (Counters f0_cws) memo ->
+  exists memo', count_solutions fb f0_base (Z.of_nat first_n) memo (map (fun _ => [0]) f0_instances) =
+                ROk ((f0_N first_n * prodZl (f0_inds (Z.of_nat first_n)))%Z, f0_shape first_n, memo') /\
+                StackProofs.memo_valid (Z.of_nat f0_q) (Counters f0_cws) memo'.
+Proof.
+  intros Hu Hval. pose proof f0_q_pos as Hq.
+  unfold count_solutions, q_instances. cbn [eb_m eb_unweighted eb_instances eb_moc f0_base].
+  rewrite f0_instances_length. rewrite Hu. cbn [Z.eqb andb Pos.eqb]. rewrite andb_false_r. unfold f0_moc. rewrite Hu.
+  destruct (TotalProofs.count_dispatch_total (Z.of_nat f0_q) (Counters f0_cws) (Z.of_nat first_n) memo
+              f0_params_ok ltac:(lia) Hval) as (memo1 & Hc & Hval1).
+  cbn [StackProofs.cs_of] in Hc. rewrite Hc. cbn [lift rbind kcount fst snd].
+  rewrite f0_combs_eq. cbn [eb_mf f0_base]. rewrite f0_ubi_eq.
+  change (map (fun f => (Z.of_nat (length (nonexcluded_levels fb f)) ^ Z.of_nat first_n)%Z) f0_ubi)
+    with (f0_inds (Z.of_nat first_n)).
+  unfold sum_combination_products. cbn [eb_moc f0_base]. unfold f0_moc. rewrite Hu.
+  rewrite all_equal_ones. cbn [andb]. unfold f0_shape. rewrite (f0_N_w first_n Hu).
+  destruct (all_equal_Z f0_cws).
+  - destruct f0_instances as [|i0 rest] eqn:Ei.
+    { exfalso. pose proof f0_instances_length as Hl. rewrite Ei in Hl. cbn in Hl. lia. }
+    cbn [map zindex Z.ltb Z.compare Z.to_nat nth_error of_opt rbind].
+    rewrite Z.pow_1_l by lia. rewrite Z.mul_1_r. exists memo1. split; [reflexivity | exact Hval1].
+  - pose proof (PrefixProofs.cnt_nonneg f0_cws (Z.of_nat first_n)) as Hnn.
+    destruct (scp_loop_total first_n Hu (Z.to_nat (cnt f0_cws (Z.of_nat first_n))) 0%Z memo1 0%Z Hval1 ltac:(lia) ltac:(lia))
+      as (memo2 & Hrun & Hval2).
+    rewrite Hrun. cbn [rbind]. rewrite Z2Nat.id by lia. exists memo2. split; [reflexivity | exact Hval2].
+Qed.
+
 Definition f0_leftover : nat := fl_trials fb mod f0_C.
 Definition f0_rounds : nat := fl_trials fb / f0_C.
 
@@ -730,6 +785,31 @@ Proof.
     cbn [rbind eb_mf f0_base] in Hrun. rewrite f0_ubi_eq in Hrun. inversion Hrun; subst en. exists m, lm. split.
     + unfold f0_enum. replace (f0_leftover =? 0) with false by (symmetry; apply Nat.eqb_neq; exact E). reflexivity.
     + split; intros _; assumption.
+Qed.
+
+(** the enumerator is always built *)
+Lemma f0_make_enumerator_total : exists m lm, make_enumerator fb = ROk (f0_enum m lm) /\ f0_memo_ok m /\ f0_memo_ok lm.
+Proof.
+  destruct f0_unw eqn:Hu.
+  { exists [], []. split; [apply (f0_make_enumerator_unw Hu)|]. split; apply f0_memo_nil. }
+  pose proof f0_C_pos as HC. unfold make_enumerator. rewrite f0_enum_base. cbn [rbind].
+  rewrite f0_valid_sources. cbn [rbind]. cbn [eb_csize f0_base].
+  destruct (f0_count_solutions_total f0_C [] Hu (StackProofs.memo_valid_nil _ _)) as (m & E1 & Hm).
+  rewrite E1. cbn [rbind].
+  replace (Z.of_nat f0_C =? 0)%Z with false by (symmetry; apply Z.eqb_neq; lia).
+  cbn [rbind eb_preamble f0_base]. unfold trials_Z. rewrite Z.sub_0_r.
+  assert (Hmod : (Z.of_nat (fl_trials fb) mod Z.of_nat f0_C)%Z = Z.of_nat f0_leftover).
+  { unfold f0_leftover. rewrite Nat2Z.inj_mod. reflexivity. }
+  rewrite Hmod. pose proof f0_leftover_lt as Hlo.
+  destruct (f0_leftover =? 0) eqn:E.
+  - apply Nat.eqb_eq in E. exists m, []. rewrite E. cbn [Z.of_nat Z.eqb rbind]. cbn [eb_mf f0_base]. rewrite f0_ubi_eq.
+    split; [unfold f0_enum; rewrite E; reflexivity|]. split; [intros _; exact Hm | apply f0_memo_nil].
+  - apply Nat.eqb_neq in E.
+    replace (Z.of_nat f0_leftover =? 0)%Z with false by (symmetry; apply Z.eqb_neq; lia).
+    destruct (f0_count_solutions_total f0_leftover [] Hu (StackProofs.memo_valid_nil _ _)) as (lm & E2 & Hlm).
+    rewrite E2. cbn [rbind eb_mf f0_base]. rewrite f0_ubi_eq. exists m, lm.
+    split; [unfold f0_enum; replace (f0_leftover =? 0) with false by (symmetry; apply Nat.eqb_neq; exact E); reflexivity|].
+    split; intros _; assumption.
 Qed.
 
 End F0.
